@@ -1,6 +1,7 @@
 package main
 
 import (
+	"go/token"
 	"fmt"
 	"go/ast"
 	"go/constant"
@@ -260,6 +261,153 @@ func checkC15(c *Ctx, r *Report) {
 
 	// ---- T3
 	checkCloneExhaustive(m, r, "C15.T3")
+
+	// ---- R4: what is persisted is the state the coordinator keeps working with
+	checkPersistAfterMutation(m, r, "C15.R4")
+}
+
+// persistedField: is (type, field) a coordinator field that buildConsumerGroup persists?
+func persistedField(typ, field string) bool {
+	short := typ[strings.LastIndex(typ, ".")+1:]
+	for _, p := range c15Pairs {
+		if p.ityp == short && p.ifield == field {
+			return true
+		}
+	}
+	return false
+}
+
+// mutatesPersisted: the instruction writes a persisted coordinator field (store, map update or
+// delete through such a field), or calls a groupState method that does (transitively).
+func mutatesPersisted(m *Module, in ssa.Instruction, memo map[*ssa.Function]int) (bool, string) {
+	switch x := in.(type) {
+	case *ssa.Store:
+		if fa, ok := x.Addr.(*ssa.FieldAddr); ok {
+			if t, f, _, ok := fieldAddrInfo(fa); ok && strings.HasPrefix(t, pkgBrokerLib+".") && persistedField(t, f) {
+				return true, "store to " + t[strings.LastIndex(t, ".")+1:] + "." + f
+			}
+		}
+	case *ssa.MapUpdate:
+		if t, f, _, ok := fieldOf(x.Map); ok && strings.HasPrefix(t, pkgBrokerLib+".") && persistedField(t, f) {
+			return true, "insert into " + f
+		}
+	case *ssa.Call:
+		if bi, ok := x.Call.Value.(*ssa.Builtin); ok && bi.Name() == "delete" {
+			if t, f, _, ok := fieldOf(x.Call.Args[0]); ok && strings.HasPrefix(t, pkgBrokerLib+".") && persistedField(t, f) {
+				return true, "delete from " + f
+			}
+			return false, ""
+		}
+		if callee, _ := calleeOf(&x.Call); callee != nil && callee.Blocks != nil && callee.Signature.Recv() != nil &&
+			strings.HasSuffix(callee.Signature.Recv().Type().String(), "broker.groupState") {
+			if fnMutatesPersisted(m, callee, memo) {
+				return true, "call " + callee.Name()
+			}
+		}
+	}
+	return false, ""
+}
+
+func fnMutatesPersisted(m *Module, fn *ssa.Function, memo map[*ssa.Function]int) bool {
+	if v, ok := memo[fn]; ok {
+		return v == 1
+	}
+	memo[fn] = 0
+	for _, b := range fn.Blocks {
+		for _, in := range b.Instrs {
+			if ok, _ := mutatesPersisted(m, in, memo); ok {
+				memo[fn] = 1
+				return true
+			}
+		}
+	}
+	return false
+}
+
+// checkPersistAfterMutation: in every coordinator entry point that persists the group, no mutation
+// of a persisted field may be followed by a return without a persistGroupLocked call in between —
+// otherwise the stored group lags behind the one the coordinator answers from, and a failover
+// restores the older one.
+func checkPersistAfterMutation(m *Module, r *Report, rule string) {
+	r.rule(rule, "in JoinGroup / SyncGroup / Heartbeat / LeaveGroup / cleanupGroups every mutation of a persisted group field is followed, on every path to a return, by persistGroupLocked", 10)
+	persist := "(*" + pkgBrokerLib + ".GroupCoordinator).persistGroupLocked"
+	memo := map[*ssa.Function]int{}
+	for _, name := range []string{"JoinGroup", "SyncGroup", "Heartbeat", "LeaveGroup", "cleanupGroups"} {
+		fn := needFn(m, r, rule, pkgBrokerLib, "(*GroupCoordinator)."+name)
+		if fn == nil {
+			continue
+		}
+		n := 0
+		for _, b := range fn.Blocks {
+			for _, in := range b.Instrs {
+				ok, what := mutatesPersisted(m, in, memo)
+				if !ok {
+					continue
+				}
+				n++
+				key := fmt.Sprintf("%s: %s is persisted before returning", name, what)
+				target := func(x ssa.Instruction) bool {
+					if _, isRet := x.(*ssa.Return); isRet {
+						return true
+					}
+					// cleanupGroups: moving on to the next group is the end of this group's turn
+					return name == "cleanupGroups" && x != in && isCallTo(x, "(*"+pkgBrokerLib+".groupState).removeExpiredMembers")
+				}
+				// infeasible / no-change edges:
+				//  (a) a sweep helper that returns false changed nothing (C12.R3 / C43.R2 decide that a
+				//      removal is always reported), so its "false" edge needs no persist;
+				//  (b) right after markStable() the phase is Stable, so a branch on state != Stable taken
+				//      in the same straight-line region cannot be taken.
+				removed := map[edge]bool{}
+				if cv, ok := in.(*ssa.Call); ok {
+					if bt, ok := cv.Type().Underlying().(*types.Basic); ok && bt.Kind() == types.Bool {
+						for e := range passEdges(fn, []Atom{atomBool("unchanged", vmIs(cv), false)}) {
+							removed[e] = true
+						}
+					}
+				}
+				stableAfter := false
+				seenIn := false
+				for _, x := range b.Instrs {
+					if x == in {
+						seenIn = true
+					}
+					if seenIn && isCallTo(x, "(*"+pkgBrokerLib+".groupState).markStable") {
+						stableAfter = true
+					}
+				}
+				if stableAfter {
+					stable := groupPhaseConsts(m)["groupStateStable"]
+					for e := range passEdges(fn, []Atom{atomCmp("state != Stable", vmField("broker.groupState", "state"), token.NEQ, vmConstInt(stable))}) {
+						// only while no other phase write intervenes: the edge's block must be reached from b
+						// without passing a store to groupState.state or a call that mutates it
+						reach, _, _ := search(SearchSpec{Start: nextLoc(in), Target: func(x ssa.Instruction) bool { return x.Block() == e.from && x == e.from.Instrs[len(e.from.Instrs)-1] },
+							Blocker: func(x ssa.Instruction) bool {
+								if x == in || isCallTo(x, "(*"+pkgBrokerLib+".groupState).markStable") {
+									return false
+								}
+								ok, what := mutatesPersisted(m, x, memo)
+								return ok && (strings.Contains(what, "groupState.state") || strings.HasPrefix(what, "call "))
+							}})
+						if reach {
+							removed[e] = true
+						}
+					}
+				}
+				found, tgt, path := search(SearchSpec{Start: nextLoc(in), Target: target,
+					Removed: func(bb *ssa.BasicBlock, si int) bool { return removed[edge{bb, si}] },
+					Blocker: func(x ssa.Instruction) bool { return isCallTo(x, persist) }})
+				if found {
+					r.viol(rule, key, m.Pos(in.Pos()), "the in-memory group changes here and the function can return at "+m.Pos(tgt.Pos())+" without persisting it again: after a failover the group is restored from the older snapshot: "+renderPath(m, path))
+				} else {
+					r.ok(rule, key, m.Pos(in.Pos()), "")
+				}
+			}
+		}
+		if n == 0 {
+			r.add(rule, name+": mutations of persisted fields", m.Pos(fn.Pos()), Info, "none")
+		}
+	}
 }
 
 func fnReadsField(fn *ssa.Function, typ, field string) bool {
